@@ -5,9 +5,11 @@ import (
 	"errors"
 	"fmt"
 	"io"
+	"net"
 	"os"
 	"strings"
 	"sync"
+	"syscall"
 	"time"
 
 	"hop.computer/hop/certs"
@@ -66,7 +68,7 @@ func okReadErr(err error) bool {
 // and the Server.
 func transportProgram(r *vh.Runner, c *vh.Case, i int) {
 	rng := vh.NewRand(r.Seed, "c17-tp", i)
-	peer := []string{"live", "live", "live", "silent", "black-hole"}[rng.Intn(5)]
+	peer := []string{"live", "live", "live", "silent", "black-hole", "write-error"}[rng.Intn(6)]
 	hidden := rng.Chance(0.4)
 	hsTimeout := time.Duration(rng.Pick(500, 2000)) * time.Millisecond
 	pt := perturb.Install(r.Seed^uint64(i)*131, false, rng.Pick(0, 30, 60))
@@ -87,6 +89,11 @@ func transportProgram(r *vh.Runner, c *vh.Case, i int) {
 		})
 	case "black-hole":
 		w.Net.SetPolicy(func(d *simnet.Datagram) []simnet.Delivery { return nil })
+	case "write-error":
+		// the client's socket starts refusing writes at some point (before,
+		// during or after the handshake); what the server sends still arrives
+		at := time.Duration(rng.Pick(0, 1, 5, 50, 400)) * time.Millisecond
+		time.AfterFunc(at, func() { cep.FailWrites(&net.OpError{Op: "write", Net: "udp", Err: syscall.ECONNREFUSED}) })
 	}
 	tr := &ttracker{open: map[int]*tcall{}, count: map[string]int{}}
 	desc := map[string]any{"peer": peer, "hidden": hidden, "hs_timeout": hsTimeout.String()}
